@@ -110,7 +110,8 @@ deriving Repr, DecidableEq
 
 /-- `FilesystemSecurityContext.__init__` + `_load` on the directory (oscore.py:1848-1881,
 1927-1957): no file → 0 and an empty window; `"unknown"` → window stays uninitialised (Echo
-recovery), otherwise `initialize_from_persisted`. -/
+recovery), otherwise `initialize_from_persisted` (`RW.fromPersisted`: a state written by a larger
+window is moved up until it fits). -/
 def load (cfg : Cfg) (d : Dir) (echo : Nat) : Mem :=
   match d.seq with
   | none =>
@@ -124,7 +125,7 @@ def load (cfg : Cfg) (d : Dir) (echo : Nat) : Mem :=
     | .window w =>
       { ssn := f.nextToSend, persisted := f.nextToSend, chunk := cfg.start,
         windowPersisted := true,
-        window := w.map fun p => { size := cfg.size, index := p.1, bitfield := p.2 }, echo }
+        window := w.map fun p => RW.fromPersisted cfg.size p.1 p.2, echo }
 
 /-- `new_sequence_number` (oscore.py:1203-1213) with `post_seqnoincrease`
 (oscore.py:2007-2021) inlined. -/
